@@ -2,6 +2,7 @@ package props
 
 import (
 	"fmt"
+	"os"
 	"os/exec"
 	"regexp"
 	"runtime"
@@ -322,17 +323,7 @@ func c17Sequential(c *Ctx, i int, r *gen.R) {
 	n := r.Range(3, 30)
 	for k := 0; k < n; k++ {
 		name := ns + string(rune('a'+r.Intn(4)))
-		switch r.Intn(5) {
-		case 4:
-			// the same value registered again under the same name (a program's init code run twice): nothing changes,
-			// and nothing may be left behind that a later operation trips over
-			id, ok := model[name]
-			if !ok {
-				continue
-			}
-			decoration.RegisterDecorationName(name, c17Value(id))
-			log = append(log, fmt.Sprintf("Register(%s,%s) [the value it already has]", name, id))
-			c.Rec.Count("registrations_of_the_value_a_name_already_has", 1)
+		switch r.Intn(4) {
 		case 0, 1:
 			id := fmt.Sprintf("v%d", k)
 			decoration.RegisterDecorationName(name, c17Value(id))
@@ -549,7 +540,7 @@ func init() {
 			{Name: "concurrent histories checked with porcupine", N: Fixed(400, 30000), Run: func(c *Ctx, i int, r *gen.R) { withProcs(c, func() { c17Concurrent(c, i, r) }) }},
 			{Name: "sequential histories vs a map", N: Fixed(200, 10000), Run: c17Sequential},
 			{Name: "fail-closed probes", N: Fixed(120, 3000), Run: c17FailClosed},
-			{Name: "first registry operations of a fresh process (5 scripts x 6 built-in names, one child process each)", Exhaustive: true, N: Fixed(30, 30), Run: c17Fresh},
+			{Name: "first registry operations of a fresh process (6 scripts x 6 built-in names, one child process each)", Exhaustive: true, N: Fixed(36, 36), Run: c17Fresh},
 		},
 	})
 }
@@ -560,7 +551,7 @@ func init() {
 
 func init() { auxModes["c17fresh"] = c17FreshChild }
 
-var c17FreshModes = []string{"overwrite-builtin-first", "register-new-first", "list-first", "named-unknown-first", "overwrite-then-list"}
+var c17FreshModes = []string{"overwrite-builtin-first", "register-new-first", "list-first", "named-unknown-first", "overwrite-then-list", "same-value-again-then-change"}
 
 // c17FreshChild performs the scripted first operations and prints "OK" or "BAD: <what>".
 func c17FreshChild(args []string) int {
@@ -606,6 +597,31 @@ func c17FreshChild(args []string) int {
 		if decoration.Named(name) == decoration.EmptyDecoration {
 			return bad("built-in %q not found after an unknown lookup", name)
 		}
+	case "same-value-again-then-change":
+		// registrations that change nothing, followed by ones that do: every call returns, and the registry says
+		// what was registered last.  (This process has one goroutine and no timers: a registry call that never
+		// returns ends it with the runtime's "all goroutines are asleep", which the parent reports.)
+		other := c17Value("c0-2")
+		n1, n2 := "again-"+name, "again2-"+name
+		decoration.RegisterDecorationName(n1, mine)
+		decoration.RegisterDecorationName(n1, mine)
+		decoration.RegisterDecorationName(name, decoration.Named(name)) // a built-in re-registered with its own value
+		decoration.RegisterDecorationName(n2, other)
+		if decoration.Named(n1) != mine || decoration.Named(n2) != other {
+			return bad("after Register(%q,X) twice and Register(%q,Y), lookups do not return X and Y", n1, n2)
+		}
+		decoration.RegisterDecorationName(n1, other)
+		if decoration.Named(n1) != other {
+			return bad("Register(%q,Y) after two registrations of X: Named returns Horizontal=%q", n1, decoration.Named(n1).Horizontal)
+		}
+		if p := c17ListProblems(decoration.RegisteredDecorationNames()); p != "" {
+			return bad("listing after re-registrations: %s", p)
+		}
+		decoration.RegisterDecorationName(n1, other)
+		decoration.RegisterDecorationName("again3-"+name, mine)
+		if decoration.Named("again3-"+name) != mine {
+			return bad("a name registered after several no-op registrations is not found")
+		}
 	default:
 		return 3
 	}
@@ -618,7 +634,11 @@ func c17Fresh(c *Ctx, i int, r *gen.R) {
 	name := c17Builtins[(i/len(c17FreshModes))%len(c17Builtins)]
 	desc := map[string]interface{}{"first_operations_of_a_fresh_process": mode, "built_in_name": name}
 	c.Case = desc
-	out, err := exec.Command(c.Exe, "-aux", "c17fresh", mode, name).CombinedOutput()
+	exe := c.Exe
+	if p := os.Getenv("VERIF_PLAIN_EXE"); p != "" {
+		exe = p // built without -race, so that the runtime's deadlock detector is in force (see run.sh)
+	}
+	out, err := exec.Command(exe, "-aux", "c17fresh", mode, name).CombinedOutput()
 	c.Rec.Eval(gen.Hash64("fresh", mode, name), true)
 	c.Rec.Count("fresh_process_probes", 1)
 	s := strings.TrimSpace(string(out))
